@@ -13,6 +13,7 @@ def check(cx):
         'R10.4 a refused PRIVMSG reaches exactly one 404 per failing stage; unknown channel 403; unknown nick 401',
         'R10.5 301 carries the recipient\'s away text, only for PRIVMSG to an away user; `away` is written only by AWAY on the own user',
         'R10.6 is_voice = voice or any higher rank; banned() = ban match without exception match (checked in C07)',
+        "R10.7 (imported) banned() = some ban mask matches and no exception mask matches the sender's nick!user@host (C07 R7.1b; matcher roles C14 R14.4)",
     ]
     ck.does_not_decide += ['client-side auto-replies', 'parse-level 461 for malformed NOTICE (the property speaks of well-formed ones)']
     prog = cx.prog
@@ -51,6 +52,12 @@ def check(cx):
             r2.violation('process_privmsg_notice|unguarded-fanout|%s' % (setname or 'members'),
                          'messages reach %s although the sender may not speak (%s)' % (setname or 'members', model_str(m)),
                          loc=cx.loc(e.node))
+
+    # ---- imported: the ban predicate
+    r7 = cx.rule('R10.7', 'ban predicate body (imported)', floor=2, kind='dependency')
+    depends(cx, r7, 'C07', ('R7.1b',), 'banned() = ban match without exception match')
+    depends(cx, r7, 'C14', ('R14.4',), 'masks are matched against the unmodified nick!user@host', only=r'^banned\|')
+
 
     # ---- NOTICE silence
     r3 = cx.rule('R10.3', 'sender-directed replies guarded by !notice', floor=6, kind='required-guard')
